@@ -58,6 +58,7 @@ package types
 //@   ensures forall i int :: {senderAddr[i]} 0 <= i && i < len(senderAddr) ==> key[3+len(receiverAddr)+i] == senderAddr[i]
 //@   ensures forall j int :: {key[j]} 2 <= j && j < 2 + len(receiverAddr) ==> key[j] == receiverAddr[j-2]
 //@   ensures forall j int :: {key[j]} 3 + len(receiverAddr) <= j && j < len(key) ==> key[j] == senderAddr[j-3-len(receiverAddr)]
+//@   abstracts str_key(key) == kStream(bytesval(receiverAddr), bytesval(senderAddr))
 
 //@ func AddressesFromStreamKey(key) (r, s)
 //@   props C18 C20
@@ -108,3 +109,56 @@ package types
 //@ func Params.Validate(p) (err)
 //@   props C16 C12
 //@   ensures @fee_range err == nil ==> !isnil(p.ValidatorFee) && 0 <= dval(p.ValidatorFee) && dval(p.ValidatorFee) <= ONE
+
+// ---------------------------------------------------------------- abstract store (used by the keeper contracts)
+//
+// The key lemmas above (stream_key_injective, stream_key_roundtrip; property C18) license the abstraction
+// str_key from key bytes to stream.Key, keyed by the *content* of the receiver and sender addresses.
+
+//@ prelude
+//@ ;;@ need-type github.com/unification-com/mainchain/x/stream/types.Stream
+//@ ;;@ need-type github.com/unification-com/mainchain/x/stream/types.Params
+//@ ;;@ need-marshal github.com/unification-com/mainchain/x/stream/types.Stream
+//@ ;;@ need-marshal github.com/unification-com/mainchain/x/stream/types.Params
+//@ (declare-datatypes ((stream.Key 0)) (((kStream (kStream.r BytesV) (kStream.s BytesV)) (kSParams) (kOtherS (kOtherS.n Int)))))
+//@ (declare-fun str_key ((Slice Int)) stream.Key)
+//@ (define-fun strHas ((s (Array stream.Key (Slice Int))) (r BytesV) (sd BytesV)) Bool (not (sl.nil (select s (kStream r sd)))))
+//@ (define-fun strGet ((s (Array stream.Key (Slice Int))) (r BytesV) (sd BytesV)) stream.Stream (unmarshal.stream.Stream (select s (kStream r sd))))
+//@ (define-fun strPut ((s (Array stream.Key (Slice Int))) (r BytesV) (sd BytesV) (x stream.Stream)) (Array stream.Key (Slice Int)) (store s (kStream r sd) (marshal.stream.Stream x)))
+//@ (define-fun strDel ((s (Array stream.Key (Slice Int))) (r BytesV) (sd BytesV)) (Array stream.Key (Slice Int)) (store s (kStream r sd) nilBytes))
+//@ (define-fun strParamsSet ((s (Array stream.Key (Slice Int)))) Bool (not (sl.nil (select s kSParams))))
+//@ (define-fun strParams ((s (Array stream.Key (Slice Int)))) stream.Params (unmarshal.stream.Params (select s kSParams)))
+//@ (define-fun strParamsPut ((s (Array stream.Key (Slice Int))) (p stream.Params)) (Array stream.Key (Slice Int)) (store s kSParams (marshal.stream.Params p)))
+//@ ; deposit of the stream encoded in stored bytes
+//@ (define-fun depOfBytes ((b (Slice Int))) Int (ival (sdk.Coin.Amount (stream.Stream.Deposit (unmarshal.stream.Stream b)))))
+//@ (define-fun denomOfBytes ((b (Slice Int))) Str (sdk.Coin.Denom (stream.Stream.Deposit (unmarshal.stream.Stream b))))
+//@ ; sum over all streams of the remaining deposits in one denomination: axiomatised (standard update axiom)
+//@ (declare-fun depSum ((Array stream.Key (Slice Int)) Str) Int)
+//@ (assert (forall ((s (Array stream.Key (Slice Int))) (k stream.Key) (v (Slice Int)) (d Str))
+//@   (! (= (depSum (store s k v) d)
+//@         (ite ((_ is kStream) k)
+//@              (+ (- (depSum s d) (ite (and (not (sl.nil (select s k))) (= (denomOfBytes (select s k)) d)) (depOfBytes (select s k)) 0))
+//@                 (ite (and (not (sl.nil v)) (= (denomOfBytes v) d)) (depOfBytes v) 0))
+//@              (depSum s d)))
+//@      :pattern ((depSum (store s k v) d)))))
+//@ ; every stored stream is well formed: non-negative deposit with a valid denomination, positive rate, sane times
+//@ (define-fun STR_WF ((s (Array stream.Key (Slice Int)))) Bool
+//@   (forall ((r BytesV) (sd BytesV)) (! (=> (strHas s r sd)
+//@      (let ((x (strGet s r sd)))
+//@        (and (not (= (sdk.Coin.Amount (stream.Stream.Deposit x)) nilInt)) (>= (Amt (stream.Stream.Deposit x)) 0) (< (Amt (stream.Stream.Deposit x)) P255)
+//@             (validDenom (sdk.Coin.Denom (stream.Stream.Deposit x))) (>= (stream.Stream.FlowRate x) 1)
+//@             (validTime (stream.Stream.LastOutflowTime x)) (validTime (stream.Stream.DepositZeroTime x)))))
+//@      :pattern ((select s (kStream r sd))))))
+//@ ; a stream's deposit is part of the sum (consequence of all deposits being non-negative)
+//@ (assert (forall ((s (Array stream.Key (Slice Int))) (r BytesV) (sd BytesV))
+//@   (! (=> (and (STR_WF s) (strHas s r sd)) (<= (depOfBytes (select s (kStream r sd))) (depSum s (denomOfBytes (select s (kStream r sd))))))
+//@      :pattern ((STR_WF s) (select s (kStream r sd))))))
+//@ ; the deposit suffices to sustain the flow from the last release to the advertised deposit-zero time (integer form of C11)
+//@ (define-fun rateOK ((x stream.Stream)) Bool
+//@   (or (= (Amt (stream.Stream.Deposit x)) 0)
+//@       (>= (* (Amt (stream.Stream.Deposit x)) 1000000000) (* (stream.Stream.FlowRate x) (- (t.ns (stream.Stream.DepositZeroTime x)) (t.ns (stream.Stream.LastOutflowTime x)))))))
+//@ (define-fun STR_RATE ((s (Array stream.Key (Slice Int)))) Bool
+//@   (forall ((r BytesV) (sd BytesV)) (! (=> (strHas s r sd) (rateOK (strGet s r sd))) :pattern ((select s (kStream r sd))))))
+//@ end
+
+//@ global ParamsKey abstracts str_key(ParamsKey) == kSParams
